@@ -133,7 +133,7 @@ func (c *CAS) checkSetPair(key, val string, o outcome) *verdict {
 		return &verdict{"set-result-pair", fmt.Sprintf("successful set of %q=%q reported %s", key, val, o.PairRaw)}
 	}
 	if o.Pair.Ver <= c.MaxVer {
-		return &verdict{"version-not-larger-than-earlier-ones", fmt.Sprintf("successful set of %q got version %d, but version %d was handed out before", key, o.Pair.Ver, c.MaxVer)}
+		return &verdict{"version-not-larger-than-earlier-ones", fmt.Sprintf("successful set of %q got version %d; the largest version handed out before is %d (0 = none yet)", key, o.Pair.Ver, c.MaxVer)}
 	}
 	return nil
 }
